@@ -103,6 +103,7 @@ type c18World struct {
 	bscMaxE    *c18BscChain // … one header at height 2^64-1 with epoch 2^64-1
 	bscChains  map[uint64]*c18BscChain
 	tmR        *c18TmrChain // synthetic Tendermint chain whose validator set changes with every block (c18_tm_test.go)
+	tmFam      [][]*c18TmrChain // families of synthetic chains: the revisions of one counterparty
 	tmV, tmW, tmX *c18TmrChain // revision 1 at 990…, its successor revision 2 starting again at 3…, and at 995…
 	proofH     int64 // height of the live counterparty whose application hash every synthetic header carries
 	// per Tendermint client, BY CONSTRUCTION: the height its last accepted proposal installed, and the greatest
@@ -178,6 +179,14 @@ func newC18World(t *testing.T) *c18World {
 	w.tmV = newC18TmrChainAt("c18rev-1", 990, 14, t0, ah)
 	w.tmW = newC18TmrChainAt("c18rev-2", 3, 10, t0.Add(2*time.Second), ah)
 	w.tmX = newC18TmrChainAt("c18rev-2", 995, 10, t0.Add(2*time.Second), ah)
+	w.tmFam = [][]*c18TmrChain{{w.tmR}, {w.tmV, w.tmW, w.tmX}}
+	for _, k := range c18IDClasses {
+		nf := int64(3)
+		if k.oldID == k.newID {
+			nf = 2000 // no revisions: the "new" installation point is simply a later block of the same chain
+		}
+		w.tmFam = append(w.tmFam, []*c18TmrChain{newC18TmrChainAt(k.oldID, 990, 14, t0, ah), newC18TmrChainAt(k.newID, nf, 10, t0.Add(2*time.Second), ah)})
+	}
 	w.addr["r0"] = w.chainA.SenderAcc.String()
 	w.addr["r1"] = sdk.AccAddress(sha256.New().Sum([]byte("r1"))[:20]).String()
 	w.addr["tssA"] = sdk.AccAddress(sha256.New().Sum([]byte("tssA"))[:20]).String()
@@ -473,6 +482,12 @@ func (w *c18World) realiseCS(desc string) exported.ClientState {
 		}
 		return tmtypes.NewClientState(w.chainB.ChainID, tmtypes.DefaultTrustLevel, tp, xibctesting.UnbondingPeriod,
 			xibctesting.MaxClockDrift, hd.GetHeight().(clienttypes.Height), commitmenttypes.GetSDKSpecs(), xibctesting.Prefix, delay)
+	case "tmi0a", "tmi1a", "tmi2a", "tmi3a", "tmi4a", "tmi5a", "tmi6a", "tmi7a", "tmi8a", "tmi9a",
+		"tmi0b", "tmi1b", "tmi2b", "tmi3b", "tmi4b", "tmi5b", "tmi6b", "tmi7b", "tmi8b", "tmi9b": // chain-id shape classes
+		c := w.tmFam[2+int(desc[3]-'0')][int(desc[4]-'a')]
+		hd := c.hdr[c.first]
+		return tmtypes.NewClientState(c.chainID, tmtypes.DefaultTrustLevel, xibctesting.TrustingPeriod, xibctesting.UnbondingPeriod,
+			xibctesting.MaxClockDrift, hd.GetHeight().(clienttypes.Height), commitmenttypes.GetSDKSpecs(), xibctesting.Prefix, 0)
 	case "tmv0", "tmw0", "tmx0": // revision 1 at block 990; revision 2 starting again at block 3 / continuing at 995
 		c := map[string]*c18TmrChain{"tmv0": w.tmV, "tmw0": w.tmW, "tmx0": w.tmX}[desc]
 		hd := c.hdr[c.first]
@@ -645,6 +660,10 @@ func (w *c18World) invalidCS(base, tag string) exported.ClientState {
 }
 
 func (w *c18World) realiseKS(desc string) exported.ConsensusState {
+	if len(desc) == 5 && strings.HasPrefix(desc, "tmi") {
+		c := w.tmFam[2+int(desc[3]-'0')][int(desc[4]-'a')]
+		return c.hdr[c.first].ConsensusState()
+	}
 	switch desc {
 	case "tm":
 		if w.tmSnap == nil {
@@ -718,6 +737,10 @@ func (w *c18World) baseTime(base string) time.Time {
 		}
 		return w.now
 	}
+	if len(base) == 5 && strings.HasPrefix(base, "tmi") {
+		c := w.tmFam[2+int(base[3]-'0')][int(base[4]-'a')]
+		return c.hdr[c.first].GetTime()
+	}
 	switch base {
 	case "now":
 		return w.now
@@ -779,7 +802,7 @@ func (w *c18World) c18Consistent(cs exported.ClientState, ks exported.ConsensusS
 		// the consensus state of the header the client state points at, on the chain the client state names
 		var hd *tmtypes.Header
 		if w.tmSynthetic(c.ChainId) {
-			if ch := w.tmChainAt(c.LatestHeight); ch != nil && ch.chainID == c.ChainId {
+			if ch := w.tmChainAt(c.ChainId, c.LatestHeight); ch != nil && ch.chainID == c.ChainId {
 				hd = ch.hdr[int64(c.LatestHeight.RevisionHeight)]
 			}
 		} else if w.tmSnap != nil && w.tmSnap.GetHeight().EQ(c.LatestHeight) {
@@ -870,6 +893,40 @@ func (w *c18World) apply(r *Rec, op string) (string, string) {
 		w.now = w.baseTime(f[1]).Add(time.Duration(off) * time.Second)
 		w.ctx = w.ctx.WithBlockTime(w.now)
 		return fmt.Sprintf("time %d", w.now.UnixNano()), "ok"
+	case "chainid": // the three chain-id helpers of core/client/types/height.go on one id, differentially and against an own reading
+		id := f[1]
+		rev, _ := strconv.ParseUint(f[2], 10, 64)
+		isFmt := clienttypes.IsRevisionFormat(id)
+		parse := "panic"
+		var pv uint64
+		if pan, _ := safely(func() { pv = clienttypes.ParseChainID(id) }); !pan {
+			parse = strconv.FormatUint(pv, 10)
+		}
+		set := "err"
+		var sv string
+		var serr error
+		if pan, _ := safely(func() { sv, serr = clienttypes.SetRevisionNumber(id, rev) }); pan {
+			set = "panic"
+		} else if serr == nil {
+			set = hxs(sv)
+		}
+		_, _, ownFmt := c18OwnSplitID(id)
+		ownRev, fits := c18OwnRevision(id)
+		r.Count("chainid.fmt=" + strconv.Itoa(c18b(isFmt)))
+		if ownFmt != isFmt {
+			w.find(r, "C18:chain-id-helper-wrong:IsRevisionFormat", "IsRevisionFormat("+id+")", fmt.Sprint(isFmt), fmt.Sprint(ownFmt))
+		}
+		if fits && parse != strconv.FormatUint(ownRev, 10) {
+			w.find(r, "C18:chain-id-helper-wrong:ParseChainID", "ParseChainID("+id+")", parse, strconv.FormatUint(ownRev, 10))
+		}
+		if ownSet, ok := c18OwnSetRevision(id, rev); rev < 1<<63 && ((ok && set != hxs(ownSet)) || (!ok && set != "err")) {
+			w.find(r, "C18:chain-id-helper-wrong:SetRevisionNumber", fmt.Sprintf("SetRevisionNumber(%s, %d): the name part is everything before the LAST hyphen, only the revision is replaced", id, rev), string(unhx(strings.Replace(set, "err", "-", 1))), ownSet)
+		} else if rev < 1<<63 {
+			r.Count("chainid.set.checked")
+		} else {
+			r.Count("chainid.set.beyond-int63")
+		}
+		return "chainid " + hxs(id) + " " + f[2], "fmt=" + strconv.Itoa(c18b(isFmt)) + " parse=" + parse + " set=" + set
 	case "timens": // relative, in nanoseconds (1 ns around a deadline)
 		off, _ := strconv.ParseInt(f[1], 10, 64)
 		w.now = w.now.Add(time.Duration(off))
@@ -938,11 +995,74 @@ func (w *c18World) apply(r *Rec, op string) (string, string) {
 }
 
 // the synthetic Tendermint chain holding the header of (revision, height)
-func (w *c18World) tmChainAt(h clienttypes.Height) *c18TmrChain {
-	for _, c := range []*c18TmrChain{w.tmR, w.tmV, w.tmW, w.tmX} {
-		if clienttypes.ParseChainID(c.chainID) == h.RevisionNumber {
-			if _, ok := c.hdr[int64(h.RevisionHeight)]; ok {
-				return c
+// chain-id shapes of Tendermint counterparties: each class is a chain that moves from one revision (old id, blocks
+// 990…) to the next (new id, blocks starting again at 3…)
+var c18IDClasses = []struct{ class, oldID, newID string }{
+	{"name-has-cur-rev", "testnet-2-1", "testnet-2-2"},
+	{"name-has-cur-rev-prefix", "net-20-1", "net-20-2"},
+	{"name-has-old-rev", "a-1-1", "a-1-2"},
+	{"digit-count-9-10", "x9-9", "x9-10"},
+	{"many-number-segments", "a-1-2-3-1", "a-1-2-3-2"},
+	{"rev-0-to-1", "zero-0", "zero-1"},
+	{"rev-2e31", "big-2147483648", "big-2147483649"},
+	{"rev-near-2e63", "huge-9223372036854775806", "huge-9223372036854775807"},
+	{"rev-beyond-int63", "top-9223372036854775807", "top-9223372036854775808"},
+	{"not-revision-format", "plainchain", "plainchain"},
+}
+
+// own reading of a chain id, independent of core/client/types/height.go: revision format = <name not ending in '-'>-<number
+// without leading zero>; the name part is everything before the LAST hyphen
+func c18OwnSplitID(id string) (name, num string, ok bool) {
+	i := strings.LastIndexByte(id, '-')
+	if i <= 0 || id[i-1] == '-' || i == len(id)-1 {
+		return "", "", false
+	}
+	num = id[i+1:]
+	if num[0] < '1' || num[0] > '9' {
+		return "", "", false
+	}
+	for j := 0; j < len(num); j++ {
+		if num[j] < '0' || num[j] > '9' {
+			return "", "", false
+		}
+	}
+	return id[:i], num, true
+}
+
+func c18OwnRevision(id string) (uint64, bool) { // (revision, fits uint64)
+	_, num, ok := c18OwnSplitID(id)
+	if !ok {
+		return 0, true
+	}
+	v, err := strconv.ParseUint(num, 10, 64)
+	return v, err == nil
+}
+
+// the chain id of revision rev of the chain whose id is `id` (only meaningful for rev < 2^63: beyond, the code's
+// strconv.Itoa(int(revision)) writes a negative number — documented, modelled as `itoaInt`)
+func c18OwnSetRevision(id string, rev uint64) (string, bool) {
+	name, _, ok := c18OwnSplitID(id)
+	if !ok {
+		return "", false
+	}
+	return name + "-" + strconv.FormatUint(rev, 10), true
+}
+
+// the synthetic Tendermint chain of the family of clientID that holds the header of (revision, height)
+func (w *c18World) tmChainAt(clientID string, h clienttypes.Height) *c18TmrChain {
+	for _, fam := range w.tmFam {
+		in := false
+		for _, c := range fam {
+			in = in || c.chainID == clientID
+		}
+		if !in {
+			continue
+		}
+		for _, c := range fam {
+			if rev, _ := c18OwnRevision(c.chainID); rev == h.RevisionNumber {
+				if _, ok := c.hdr[int64(h.RevisionHeight)]; ok {
+					return c
+				}
 			}
 		}
 	}
@@ -950,7 +1070,23 @@ func (w *c18World) tmChainAt(h clienttypes.Height) *c18TmrChain {
 }
 
 func (w *c18World) tmSynthetic(chainID string) bool {
-	return chainID == w.tmR.chainID || chainID == w.tmV.chainID || chainID == w.tmW.chainID
+	for _, fam := range w.tmFam {
+		for _, c := range fam {
+			if c.chainID == chainID {
+				return true
+			}
+		}
+	}
+	return false
+}
+
+func (w *c18World) tmIDClass(chainID string) string {
+	for _, k := range c18IDClasses {
+		if k.oldID == chainID || k.newID == chainID {
+			return k.class
+		}
+	}
+	return "plain"
 }
 
 func c18MaxLex(a, b clienttypes.Height) clienttypes.Height {
@@ -1545,6 +1681,7 @@ func (w *c18World) update(r *Rec, f []string) (string, string) {
 	var header exported.Header
 	vbc := false // valid by construction: the genuine next header for the installed client
 	otherRev := false    // … BSC / ETH: the next block under a revision number other than the client's
+	idClass := ""        // chain-id shape class of the synthetic Tendermint client's chain
 	tmOldRev := false    // … a late header of an earlier revision than the client's
 	tmRotation := false  // … of the synthetic Tendermint chain: signed by a validator set other than the previous header's
 	bscNewcomer := false // … sealed by a validator that joined with the set announced at the install / last epoch
@@ -1587,7 +1724,7 @@ func (w *c18World) update(r *Rec, f []string) (string, string) {
 						}
 					}
 				}
-				if ch := w.tmChainAt(best); ch != nil && !best.IsZero() {
+				if ch := w.tmChainAt(cs.(*tmtypes.ClientState).ChainId, best); ch != nil && !best.IsZero() {
 					trusted = best
 					hd = ch.update(int64(best.RevisionHeight)+1, best)
 					if hd != nil {
@@ -1599,7 +1736,7 @@ func (w *c18World) update(r *Rec, f []string) (string, string) {
 				if how == "stale" {
 					nh--
 				}
-				if ch := w.tmChainAt(clienttypes.NewHeight(trusted.RevisionNumber, uint64(nh))); ch != nil {
+				if ch := w.tmChainAt(cs.(*tmtypes.ClientState).ChainId, clienttypes.NewHeight(trusted.RevisionNumber, uint64(nh))); ch != nil {
 					hd = ch.update(nh, trusted)
 				}
 				if hd != nil && how == "next" {
@@ -1630,6 +1767,23 @@ func (w *c18World) update(r *Rec, f []string) (string, string) {
 			}
 			header = hd
 			ht := hd.GetHeight().(clienttypes.Height)
+			if synthetic && tmRotation {
+				// own computation of the chain id the header must carry: the client's id with the header's revision
+				cid, hid := cs.(*tmtypes.ClientState).ChainId, hd.Header.ChainID
+				hrev, _ := c18OwnRevision(hid)
+				expect, isf := c18OwnSetRevision(cid, hrev)
+				if !isf {
+					expect = cid
+				}
+				idClass = w.tmIDClass(cid)
+				switch {
+				case hrev >= 1<<63 && isf:
+					tmRotation = false // strconv.Itoa(int(revision)) is not faithful there: the code cannot follow such a chain (documented)
+					r.Count("update.tm.revision-beyond-int63")
+				case expect != hid:
+					tmRotation = false
+				}
+			}
 			vbc = (how == "next" || how == "oldrev") && (!synthetic || tmRotation) && ht.GT(trusted) && hd.GetTime().Before(w.now.Add(xibctesting.MaxClockDrift)) /* light.Verify: header time must be strictly before now + drift */
 		case "bsc":
 			num := cs.GetLatestHeight().GetRevisionHeight()
@@ -1816,6 +1970,13 @@ func (w *c18World) update(r *Rec, f []string) (string, string) {
 	if tmRotation {
 		r.Count("update.tm.valset-changed." + res)
 	}
+	if idClass != "" && vbc {
+		which := "cur"
+		if tmOldRev {
+			which = "old"
+		}
+		r.Count("update.tm.chain-id-class." + idClass + "." + which + "-revision-header." + res)
+	}
 	if otherRev {
 		r.Count("update." + ty + ".other-revision-label." + res)
 		if res == "ok" {
@@ -1926,6 +2087,8 @@ func c18CSOf(ty string, second bool) (string, string) {
 
 func c18TimeFor(cs string) string {
 	switch {
+	case len(cs) == 5 && strings.HasPrefix(cs, "tmi"):
+		return cs
 	case cs == "tmv0" || cs == "tmw0" || cs == "tmx0" || cs == "tmr0" || cs == "tmr1" || cs == "tmbig" || cs == "bscbig" || cs == "bscmaxe" || cs == "ethq0" || cs == "ethq1":
 		return cs
 	case strings.HasPrefix(cs, "bscq"):
@@ -2244,6 +2407,33 @@ func c18NameClasses() [][]string {
 	return out
 }
 
+// chain-id shapes of Tendermint counterparties (name part containing the text of a revision, digit-count changes, many
+// number segments, revision 0, large revisions, ids not in revision format): create at revision r, updates, upgrade to
+// r+1, then late valid headers of revision r and headers of r+1 in turn; and the three helpers on each id directly
+func c18ChainIDs() [][]string {
+	var out [][]string
+	revs := []string{"0", "1", "2", "9", "10", "20", "2147483648", "4294967296", "9223372036854775807", "9223372036854775808", "18446744073709551615"}
+	for i, k := range c18IDClasses {
+		a, b := fmt.Sprintf("tmi%da", i), fmt.Sprintf("tmi%db", i)
+		h := []string{"reset", "relayer r0 N0 N1", "time " + a + " 120", "create N0 " + a + " " + a, "update N0 r0 next", "update N0 r0 next", "verify N0 latest",
+			"upgrade N0 " + b + " " + b, "status N0", "verify N0 installed", "update N0 r0 oldrev", "update N0 r0 next", "verify N0 latest", "update N0 r0 oldrev",
+			"restart", "update N0 r0 next", "update N0 r0 oldrev", "verify N0 installed", "verify N0 latest", "status N0"}
+		for _, id := range []string{k.oldID, k.newID} {
+			for _, rv := range revs {
+				h = append(h, "chainid "+id+" "+rv)
+			}
+		}
+		out = append(out, h)
+	}
+	h := []string{"reset"}
+	for _, id := range []string{"a", "a-", "-1", "a--1", "a-01", "a-0", "a-1x", "a-1-", "a1", "1-1", "a-b-c", "x-18446744073709551615", "x-18446744073709551616", "x-99999999999999999999", "-", "--", "a-1-1-1", "teleport_9000-10"} {
+		for _, rv := range []string{"0", "1", "11", "9223372036854775808"} {
+			h = append(h, "chainid "+id+" "+rv)
+		}
+	}
+	return append(out, h)
+}
+
 // (D) two proposals about the same client decided in the same block, executed one after the other in both orders
 // (each passed ValidateBasic at its submission, before either ran); and two creates of the same name
 func c18InFlight() [][]string {
@@ -2548,6 +2738,9 @@ func TestC18(t *testing.T) {
 			run(h)
 		}
 		for _, h := range c18NameClasses() {
+			run(h)
+		}
+		for _, h := range c18ChainIDs() {
 			run(h)
 		}
 	}
